@@ -6,6 +6,7 @@ import SfModel
 import Driver.Util
 import Driver.Codec
 import Driver.Script
+import Driver.Chunks
 open Sf
 
 def lawOf (s : String) : Option G711.Law :=
@@ -52,4 +53,5 @@ def main (args : List String) : IO UInt32 := do
   | "g711" :: rest => g711Cmd rest
   | "codec" :: rest => codecCmd rest
   | "script" :: rest => scriptCmd rest
+  | "chunks" :: _ => do ChunksCmd.run (← readLines)
   | _ => IO.eprintln "usage: sfmodel <g711|...> ..."; return 2
